@@ -128,6 +128,9 @@ def correspond(ctx, spec, cases):
             metas.append(("panic", o["panic"]))
             continue
         term, probes, problems = spec.to_model(c, o)
+        if term is None:            # oracle-only case: no model rendering for this flavour
+            metas.append(("skip", problems))
+            continue
         metas.append((len(terms), probes, problems))
         terms.append(term)
     model = coq_eval(spec.subsys, spec.coq_header, terms, tag=spec.pid) if terms else []
@@ -141,6 +144,9 @@ def correspond(ctx, spec, cases):
             continue
         if meta[0] == "panic":
             d = "implementation panicked: %s" % meta[1]
+            m = None
+        elif meta[0] == "skip":
+            d = "; ".join(meta[1][:3]) if meta[1] else None
             m = None
         else:
             ti, probes, problems = meta
